@@ -205,7 +205,17 @@ fn main() {
                 // (tests of several crates can share a process: the variable is read when the build starts)
                 unsafe { std::env::set_var("CARGO_MANIFEST_DIR", d) };
             }
-            TestRunner::default().build(build_config(&b["config"]), |ctx| build_body(ctx, jarr(b, "body")));
+            // "catch_builds": every build is a test of its own in this process (another #[test] function, a #[should_panic] one): a build that
+            // panics ends that test only, the next one runs; the scenario's outcome is the last build's
+            let catch = scenario.get("catch_builds").and_then(Value::as_bool).unwrap_or(false);
+            let outcome = std::panic::catch_unwind(std::panic::AssertUnwindSafe(|| {
+                TestRunner::default().build(build_config(&b["config"]), |ctx| build_body(ctx, jarr(b, "body")));
+            }));
+            if let Err(p) = outcome {
+                if !catch || i + 1 == jarr(&scenario, "builds").len() {
+                    std::panic::resume_unwind(p);
+                }
+            }
         }
     }).expect("spawn");
     match handle.join() {
